@@ -29,6 +29,9 @@ func tree(shape int) *hlib.Build {
 		return b
 	case 2: // only directories and a symlink
 		return &hlib.Build{Dirs: []string{"x/y/z", "w"}, Links: []hlib.Link{{Path: "x/l", Dest: "y"}}}
+	case 3: // a symlink whose target is extracted after it (behind a big file), and a dangling one
+		return &hlib.Build{Files: []hlib.File{{Path: "a-big", Data: rt.Bytes("big", 5)}, {Path: "z-target", Data: rt.Bytes("t", 1)}},
+			Links: []hlib.Link{{Path: "b-lnk", Dest: "z-target"}, {Path: "c-dangling", Dest: "nowhere"}}}
 	}
 	return &hlib.Build{}
 }
@@ -86,24 +89,39 @@ func H_resume() {
 	root := rt.TempDir()
 	archive, _, _, _ := compress(root, b)
 	out, resume := root+"/out", root+"/resume.txt"
-	k := rt.Param("k")
-	n := 0
+	k, n := 0, 0
+	if rt.HasParam("k") {
+		k = rt.Param("k")
+	}
 	var snap []hlib.Entry
 	var resumeBytes []byte
 	haveResume, crashed := false, false
 	settings := archiver.ExtractSettings{Consumer: hlib.Consumer, Concurrency: rt.Param("workers"), ResumeFrom: resume}
-	settings.OnEntryDone = func(string) {
-		n++
-		if n == k {
-			crashed = true
-			// the crash instant: the disk is read in one atomic step (no other goroutine runs meanwhile)
-			rt.SchedExplore(false)
-			// (resume file first: natively the two reads are not atomic, and the disk only ever gains entries)
-			if rb, err := os.ReadFile(resume); err == nil {
-				resumeBytes, haveResume = rb, true
+	crash := func() {
+		if crashed {
+			return
+		}
+		crashed = true
+		// the crash instant: the disk is read in one atomic step (no other goroutine runs meanwhile)
+		rt.SchedExplore(false)
+		// (resume file first: natively the two reads are not atomic, and the disk only ever gains entries)
+		if rb, err := os.ReadFile(resume); err == nil {
+			resumeBytes, haveResume = rb, true
+		}
+		snap = hlib.Snapshot(out)
+		rt.SchedExplore(true)
+	}
+	if rt.HasParam("instants") {
+		// the crash instant is a choice over the visible operations (channel / sync / file-system
+		// call of any goroutine) of the extraction: right before the n-th one
+		hlib.Must(os.MkdirAll(out, 0o755), "mkdir out")
+		rt.AtVisibleOp(1+rt.Choice("crash-at", rt.Param("instants")), crash)
+	} else {
+		settings.OnEntryDone = func(string) {
+			n++
+			if n == k {
+				crash()
 			}
-			snap = hlib.Snapshot(out)
-			rt.SchedExplore(true)
 		}
 	}
 	_, err := extract(archive, out, settings)
